@@ -14,10 +14,15 @@ ID = 'C03'
 PROPS_V = 'C03/Props.v'
 LEVEL = 'proof'
 TRUSTED = [
-    'hand-written model coq/C03/Model.v of yanny.write() / yanny.append() / a fresh yanny(filename) over an abstract file '
-    'system, on top of the reader / writer models coq/Yanny/{Parse,Render}.v -- tied to the code on every run: after EVERY '
-    'operation of every generated history the outcome class, the object\'s file name, the bytes of that file and the object '
-    'state computed by the model in Coq equal those of the real class',
+    'model coq/C03/Model.v of yanny.write() / yanny.append() / a fresh yanny(filename) over an abstract file system, on top '
+    'of the reader / writer models coq/Yanny/{Parse,Render}.v.  Two ties on every run: (a) translate/c03.py regenerates the '
+    'statement-by-statement skeleton of write() and append() (coq/Generated/YannyOps.v) and C03_source_write_is_model / '
+    'C03_source_append_is_model prove that EXECUTING it (interpreter C03/SkelSem.v) is Model.do_write / do_append; '
+    '(b) after EVERY operation of every generated history the outcome class, the object\'s file name, the bytes of that file '
+    'and the object state computed by the model in Coq equal those of the real class',
+    'the interpreter C03/SkelSem.v (meaning of the statement language: os.access F_OK / W_OK = the file exists, a raise leaves '
+    'what was modified before it modified, loop bodies have block scope, `container[key]` is the value belonging to the loop '
+    'key) and the per-row loop carried as source text (ROWS_SELF / ROWS_DATA = what Render.render_row transliterates)',
     'the operating system file layer beyond exists / create / append / read (permissions, concurrent writers: os.access is '
     'modelled as "the file exists")',
     'numpy float text: str(np.float32/64(float(t))) and repr(float(t)) reproduce the text t numpy printed (validated every run)',
@@ -30,9 +35,11 @@ ASSUMPTIONS = [
     'the directory may hold planted entries when the history starts (zero bytes, a lone newline, blanks, another yanny file, '
     'garbage, a directory, a read-only file): write() is aimed at them; append targets are the own file or an absent name '
     '(append onto a directory / read-only file raises other error classes and is not generated)',
-    'text-seeded histories (hand-written text with char x[] / char x[n][] columns, appends of values longer than all present) '
-    'are outside the domain of the theorems (doc_ok excludes undeclared lengths); they are compared with the model after every '
-    'op (Model.CText) and decided by the direct checks object == fresh re-read == expected content',
+    'text-seeded histories (hand-written text with char x[] / char x[n][] columns, appends of values longer than all present, '
+    'CRLF / tabs / trailing blanks / trailing comments / a keyword after the data / no final newline) are outside the domain of '
+    'the CONTENT theorems (doc_ok excludes undeclared lengths) but inside the invariant-for-every-state theorems '
+    '(C03_text_history_Inv; Total.text_domain evaluated on every such history); they are compared with the model after every '
+    'op (Model.CText) and their content is decided by the direct checks object == fresh re-read == expected content',
     'appended rows fit the table (same domain as C01 cells), appended keys are identifiers different from every table name '
     '(they may re-state an existing keyword or be a case twin of one: dictionary semantics, Model.upd_pairs), '
     'appended values satisfy hdr_ok; write() is given an explicit list of comments; row data come as lists holding numpy '
@@ -51,11 +58,23 @@ def translate(ctx):
     # the regex literals / type tables of yanny.py -> Generated/YannyLits.v (same generator as C01); the obligation
     # Cxx_source_regexes_are_the_scanners in Props.v fails when the source uses another literal
     from harness.props import c01 as _c01
-    return _c01.translate(ctx)
+    out = _c01.translate(ctx)
+    # the control skeleton of yanny.write() / yanny.append() -> Generated/YannyOps.v (statement language C03/SkelLang.v;
+    # C03/Skel.v proves that its interpretation IS Model.do_write / Model.do_append: C03_source_*_skeleton*)
+    from translate import c03 as T
+    text, info = T.generate(C.REPO)
+    if text is not None:
+        info['changed'] = C.write_if_changed(os.path.join(C.COQ, 'Generated', 'YannyOps.v'), text)
+    else:
+        info['restored_committed_file'] = C.restore_generated('coq/Generated/YannyOps.v')
+        info['note'] = 'yanny.write / yanny.append not found: committed Generated/YannyOps.v kept; the correspondence run alone ties the model'
+    out['YannyOps'] = info
+    out['recognised'] = bool(info.get('recognised')) and all(v.get('recognised', True) for v in out.values() if isinstance(v, dict))
+    return out
 
 HEADER = '''From Coq Require Import String.
 From Coq Require Import NArith ZArith List. Import ListNotations.
-From PV Require Import Yanny.Bytes Yanny.Types Yanny.Parse Yanny.Render C03.Model C03.Append. Open Scope N_scope.'''
+From PV Require Import Yanny.Bytes Yanny.Types Yanny.Parse Yanny.Render C03.Model C03.Append C03.Total. Open Scope N_scope.'''
 
 OUT_CODE = {'ok': 0, 'PydlutilsException': 1, 'warning': 2, 'ValueError': 3}
 COMMENTS = ['c', 'second write', 'copy of the file', 'x  y', 'FOO 1 2', 'k v']
@@ -339,9 +358,26 @@ def restyle(rng, doc, text):
     trailing = rng.random() < 0.4
     tabs = rng.random() < 0.4
     nofinal = rng.random() < 0.2
+    comments = rng.random() < 0.35          # trailing comments after keyword values and data rows
+    tailpair = rng.random() < 0.25          # the last keyword line comes AFTER the data (hand-written files may do that)
+    if rng.random() < 0.2:                  # the three together: the last line is `key value # comment`, unterminated
+        nofinal = comments = tailpair = True
     names = [t['name'].upper() for t in doc['tables']]
     lines = text.split('\n')
     assert lines[-1] == ''
+    first_td = next((i for i, ln in enumerate(lines) if ln.startswith('typedef')), len(lines))
+    pair_idx = [i for i, ln in enumerate(lines[:first_td]) if ln and not ln.startswith('#')]
+    if tailpair and pair_idx:
+        ln = lines.pop(pair_idx[-1])
+        lines.insert(len(lines) - 1, ln)
+        pair_idx = pair_idx[:-1] + [len(lines) - 2]
+    elif tailpair:
+        tailpair = False
+    if comments:
+        for i, ln in enumerate(lines[:-1]):
+            is_row = any(ln.startswith(n + ' ') for n in names)
+            if (i in pair_idx or is_row) and not ln.endswith('\\') and (rng.random() < 0.6 or i == len(lines) - 2):
+                lines[i] = ln + rng.choice([' # note', '\t# set by hand', ' # "quoted" remark', '  #', ' # it is 3.5 m'])
     out = []
     for ln in lines[:-1]:
         if tabs and any(ln.startswith(n + ' ') for n in names):
@@ -354,7 +390,8 @@ def restyle(rng, doc, text):
     res = ''.join(out)
     if nofinal:
         res = res[:-2] if res.endswith('\r\n') else res[:-1]
-    tag = style + ('+trailing-blanks' if trailing else '') + ('+tabs' if tabs else '') + ('+no-final-newline' if nofinal else '')
+    tag = style + ('+trailing-blanks' if trailing else '') + ('+tabs' if tabs else '') + ('+trailing-comments' if comments else '') \
+        + ('+keyword-after-data' if tailpair else '') + ('+no-final-newline' if nofinal else '')
     return res, tag
 
 
@@ -608,6 +645,9 @@ def direct_checks(doc, raw, ops, res):
                 added = bytes.fromhex(nb[len(pb):]).decode('latin-1')
                 npairs, nrows = h.last_lines if want == 'ok' else (0, 0)      # every pair of the dictionary gets its line
                 marker = '# Appended by yanny.py at %s.\n' % op['clock']
+                unterminated = len(pb) > 0 and not pb.endswith('0a')
+                if unterminated and added.startswith('\n'):
+                    added = added[1:]             # the old last line had no newline: append() may terminate it first
                 if not added.startswith(marker):
                     bad.append((k, 'append-marker-line-missing', repr(added[:80])))
                 elif want == 'ok' and (not added.endswith('\n') or added.count('\n') != 1 + npairs + nrows):
@@ -633,7 +673,14 @@ def direct_checks(doc, raw, ops, res):
             d = G.diff_tables(exp, rr['ok'], check_types=not raw)
             bad.append((k, 'object-differs-from-fresh-reread', ('; '.join(d) or first_difference(ob['ok'], rr['ok']))[:300]))
         d = G.diff_tables(exp, ob['ok'], check_types=not raw)
-        if d:
+        pb_ = prev.get('bytes_hex') or ''
+        if d and got == 'ok' and op['op'] == 'append' and pb_ and not pb_.endswith('0a') \
+                and not G.diff_tables(G.expected(before_doc), (prev.get('object') or {}).get('ok') or {}, check_types=not raw):
+            # the content was right before this append, the file had no final newline, and now an EARLIER line reads differently
+            bad.append((k, 'append-glued-to-unterminated-last-line',
+                        ('the file did not end with a newline (last line %r); after the append: ' % bytes.fromhex(pb_).decode('latin-1').split('\n')[-1][:60]
+                         + '; '.join(d))[:300]))
+        elif d:
             bad.append((k, 'object-is-not-the-history-content', '; '.join(d)[:300]))
         prev = st
     return bad, exps
@@ -688,7 +735,7 @@ def evaluate(ctx, hists, tag='cases'):
             terms.append('(CHist %s %s %s [])' % (G.doc_term(doc), G.blit('f0.par'), C.boollit(raw)))
         else:
             terms.append(case_term(doc, raw, ops, res, exps))
-    cc = C.CoqCases(ctx.work, HEADER, 'run_cases_dom', shard=ctx.n(8, 40))
+    cc = C.CoqCases(ctx.work, HEADER, 'run_cases_all', shard=ctx.n(8, 40))
     verdicts = cc.run(terms, tag=tag)
     ctx.coverage['coq_eval_s'] = round(ctx.coverage.get('coq_eval_s', 0) + cc.coq_seconds, 1)
     return results, infos, verdicts, terms
@@ -727,9 +774,9 @@ def shrink(ctx, doc, raw, ops, kind):
 
 
 def correspond(ctx, proof_ok=True):
-    ok, log = C.coq_make(['C03/Append.vo'])
+    ok, log = C.coq_make(['C03/Total.vo'])
     if not ok:
-        raise RuntimeError('C03/Append.v does not build:\n' + log[-2000:])
+        raise RuntimeError('C03/Total.v does not build:\n' + log[-2000:])
     bo = oracle_check(ctx.rng, ctx.n(10000, 200000))
     if bo:
         ctx.violation('C03:oracle:float-text-rerender', 'numpy float text is not reproduced when a read value is printed again: %r' % (bo[:3],),
@@ -778,10 +825,12 @@ def analyse(ctx, hists, results, infos, verdicts, dist, seen, groups, outside):
             dist[key] = dist.get(key, 0) + 1
         if v in (8, 12) and not bad:
             raise RuntimeError('initial document does not render/parse in the model: %r' % (doc,))
-        if v & 4:       # the history is outside the domain of the theorems (Append.in_domain); still compared with the model
+        if v & 4:       # outside the domain of the theorems (written seeds: Append.in_domain, text seeds: Total.text_domain)
             v -= 4
-            if not doc.get('text_seed'):      # text-seeded histories (char x[]) are outside by construction
+            if not doc.get('text_seed'):
                 outside.append((doc, raw, ops))
+            else:
+                dist['__text_outside'] = dist.get('__text_outside', 0) + 1
         spec_bad = bool(v & 2)
         if bad:
             kind = bad[0][1]
@@ -833,6 +882,7 @@ def report(ctx, hists, dist, nsteps, groups, outside, term_hashes, sample_term):
         'text_seed_byte_styles': {st: sum(1 for h in hists if h[0].get('text_style') == st)
                                   for st in sorted(set(h[0].get('text_style') for h in hists if h[0].get('text_style')))},
         'histories_in_theorem_domain': len(hists) - len(outside) - sum(1 for h in hists if h[0].get('text_seed')),
+        'text_histories_in_total_invariant_domain': sum(1 for h in hists if h[0].get('text_seed')) - dist.pop('__text_outside', 0),
         'first_history_outside_domain': ({'doc': outside[0][0], 'ops': outside[0][2]} if outside else None),
         'ops_by_kind_and_outcome': dist,
         'histories_failing': sum(len(x) for x in groups.values()),
